@@ -146,6 +146,9 @@ pub fn check(v: &View) -> Vec<Violation> {
         let handled: Vec<&CbRec> = v.cbs_of(a).filter(|c| c.cb == Cb::Item).collect();
         let faulted = v.fault_injected(a);
         crate::log::probe("c13_items_checked");
+        if v.out.log.iter().any(|r| matches!(&r.ev, Ev::StreamPolledAfterEnd { aidx: x } if *x == aidx)) {
+            out.push(violation(P, "stream-polled-after-end", &sig, format!("actor {aidx}: the attached stream was polled again after it had ended (it panicked, as a stream may)")));
+        }
         // exactly once, in stream order: the handled items are the yielded items, in order
         if capped && a.dead.is_none() {
             // nothing more to judge on an unfinished history beyond "did not terminate" below
